@@ -4,7 +4,7 @@ import gen_http as G
 
 HARNESS = "rx_driver"
 LEAN_MODULES = ["ViaProofs.C06"]
-LEMMA_MODULES = ['ViaProofs.Trans.RL', 'ViaProofs.Trans.FL', 'ViaProofs.Trans.CH', 'ViaProofs.Trans.MH', 'ViaProofs.Trans.CK', 'ViaProofs.Trans.RQ', 'ViaProofs.Trans.RR']
+LEMMA_MODULES = ['ViaProofs.Trans.RL', 'ViaProofs.Trans.FL', 'ViaProofs.Trans.CH', 'ViaProofs.Trans.MH', 'ViaProofs.Trans.CK', 'ViaProofs.Trans.RQ', 'ViaProofs.Trans.RR', 'ViaProofs.Trans.MHA', 'ViaProofs.Trans.RQP']
 REQUIRED_THEOREMS = ["Via.C06"]
 LEVEL = "proof"
 LEVEL_TEXT = ('PROOF that after every reachable receiver state the retained bytes are bounded by an explicit formula in the configured limits (invariant over all byte streams and fragmentations); translated parsers as C01; correspondence on endless-stream families (sizes after every receive compared with the bound).')
@@ -58,6 +58,13 @@ FAMILIES = {
     "huge-chunk-second": (b"POST / HTTP/1.0\r\nTransfer-Encoding: chunked\r\n\r\n1\r\nx\r\nfffff;e\r\n", b"d" * 7, False),
     "huge-cl": (b"POST / HTTP/1.0\r\nContent-Length: 999999999\r\n\r\n", b"b" * 7, False),
     "cl-body": (b"POST / HTTP/1.0\r\nContent-Length: 50\r\n\r\n", b"b" * 3, False),
+    # one field name repeated / two names alternating / Cookie, each line as long as the line limit allows: the joined
+    # VALUES count towards the header-length limit (unit computed per configuration)
+    "repeat-long": (b"GET / HTTP/1.0\r\n", lambda cfg, i: b"a: " + b"v" * max(1, cfg.ll - 8) + b"\r\n", True),
+    "alternate-long": (b"GET / HTTP/1.0\r\n", lambda cfg, i: (b"a: " if i % 2 else b"b: ") + b"v" * max(1, cfg.ll - 8) + b"\r\n", True),
+    "cookie-long": (b"GET / HTTP/1.0\r\n", lambda cfg, i: b"Cookie: " + b"c" * max(1, cfg.ll - 13) + b"\r\n", True),
+    "trailers-repeat-long": (b"POST / HTTP/1.0\r\nTransfer-Encoding: chunked\r\n\r\n0\r\n",
+                             lambda cfg, i: b"t: " + b"v" * max(1, cfg.ll - 8) + b"\r\n", False),
 }
 
 
@@ -65,7 +72,7 @@ def generate(tier, rng):
     quick = tier == "quick"
     cases = []
     n = 0
-    for cfgname in ("tiny", "tinys", "mid", "mids"):
+    for cfgname in ("tiny", "tinys", "mid", "mids", "wide"):
         cfg = G.REQ_CFGS[cfgname]
         for fam, (prefix, unit, in_head) in FAMILIES.items():
             if not in_head and cfg.ll < 30:
@@ -73,12 +80,20 @@ def generate(tier, rng):
             for (maxc, maxk, cc) in ((20, 8, 1), (60, 8, 0)):
                 B = bound(cfg, maxc, maxk)
                 H = head_bound(cfg)
-                reps = (3 * max(B, H)) // max(1, len(unit or b"xx: \r\n")) + 20
+                if callable(unit):
+                    ufn = unit
+                    ulen = len(ufn(cfg, 0))
+                else:
+                    ufn = None
+                    ulen = len(unit or b"xx: \r\n")
+                reps = (3 * max(B, H)) // max(1, ulen) + 20
                 if quick:
                     reps = min(reps, 4000)
                 units = []
                 for i in range(reps):
-                    if unit is None:
+                    if ufn is not None:
+                        units.append(ufn(cfg, i))
+                    elif unit is None:
                         units.append(b"h%d:\r\n" % i)
                     else:
                         units.append(unit)
